@@ -336,6 +336,14 @@ func GenBatch(r *rand.Rand, p *GenProfile, idBase int) []Doc {
 				d.Fields = append(d.Fields, fi)
 			}
 		}
+		if p.Lean && r.Intn(2) == 0 {
+			// a second value of the first field (multi-valued field: frequencies of shared terms are merged)
+			name := pool[0]
+			fi := FieldInst{Name: B(name), Typ: int('t'), AP: Ints{1}}
+			fi.Toks, fi.Len = genToks(r, p, plan.tv[name], nil)
+			fi.DV = plan.dv[name]
+			d.Fields = append(d.Fields, fi)
+		}
 		// the _id field at a random position
 		pos := r.Intn(len(d.Fields) + 1)
 		d.Fields = append(d.Fields, FieldInst{})
